@@ -160,14 +160,21 @@ class AbstractInventory(ABC):
         nuclide name strings. Converts nuclide name strings and ids into Ab-XY format.
         """
 
-        return {
-            (
+        parsed_contents: Dict[str, Union[float, Expr]] = {}
+        for nuc, inp in contents.items():
+            parsed_nuc = (
                 parse_nuclide(nuc.nuclide, nuclides, dataset_name)
                 if isinstance(nuc, Nuclide)
                 else parse_nuclide(nuc, nuclides, dataset_name)
-            ): inp
-            for nuc, inp in contents.items()
-        }
+            )
+            if parsed_nuc in parsed_contents:
+                raise ValueError(
+                    f"{parsed_nuc} is specified more than once in the contents dictionary "
+                    "(using different nuclide strings, ids or Nuclide instances)."
+                )
+            parsed_contents[parsed_nuc] = inp
+
+        return parsed_contents
 
     @staticmethod
     def _check_values(contents: Dict[str, Union[float, Expr]]) -> None:
